@@ -60,9 +60,9 @@ def scen(names, inv):
 
 PROPS = {
     'C01': {'scenarios': scen('Pair1', ['P_C01_DeliveredSendsAccepted', 'RaisingCallEmitsNothing']) + [sc('MC_Pair2', 5, 7, ['P_C01_DeliveredSendsAccepted', 'RaisingCallEmitsNothing'])],
-            'lens': [(ALL_PUBLIC, ANY)]},
+            'lens': [(ALL_PUBLIC + ['z'], ANY)]},
     'C02': {'scenarios': scen('Pair1 LifeS LifeC MiscC FrameS', ['P_C02_FramesWithinLimits', 'RaisingCallEmitsNothing']),
-            'lens': [(['o'], ANY), (['q.mof'], ANY)]},
+            'lens': [(['o'], ANY), (['q.mof', 'z.hp'], ANY)]},
     'C03': {'scenarios': scen('FlowS SetC PushS', ['P_C03_SendWithinWindows', 'P_C03_WindowsBounded']),
             'lens': [(['q.lw', 'z.ow', 'z.streams.ow'], ANY), (['r', 'o'], S('call:data')), (['r', 'e'], S('frame:WU'))]},
     'C04': {'scenarios': scen('FlowS CloseS PushC', ['P_C04_InboundDataExactlyAtWindow', 'P_C04_RemoteWindowIsAdvertised']),
@@ -73,18 +73,18 @@ PROPS = {
             'lens': [(['r', 'o', 'e'] + STATE_FSM, ANY)]},
     'C07': {'scenarios': scen('LifeS LifeC Pair1 PushC', ['P_C07_EventsFitRole']),
             'lens': [(['e'] + STATE_FSM, S('recv', 'dlv')), (['r'], S('frame:HEADERS', 'frame:DATA'))]},
-    'C08': {'scenarios': scen('LifeS LifeC MiscC MiscS', ['P_C08_RoleRestrictedSends', 'RaisingCallEmitsNothing']),
-            'lens': [(['r', 'o'], S('call:hdr', 'call:data', 'call:end', 'call:push', 'call:alt', 'call:prio')), (['z.conn'], ANY)]},
+    'C08': {'scenarios': scen('LifeS LifeC MiscC MiscS PushS', ['P_C08_RoleRestrictedSends', 'RaisingCallEmitsNothing']),
+            'lens': [(['r', 'o'] + STATE_FSM, S('call:hdr', 'call:data', 'call:end', 'call:push', 'call:alt', 'call:prio')), (['z.conn'], ANY)]},
     'C09': {'scenarios': scen('LifeS LifeC SetC PushC', ['P_C09_IdsIncreaseWithParity']),
-            'lens': [(['q.nx', 'z.hiIn', 'z.hiOut'], ANY), (['r', 'o', 'e'], S('call:hdr', 'call:push', 'frame:HEADERS', 'frame:PP', 'frame:PRIO'))]},
+            'lens': [(['q.nx', 'z.hiIn', 'z.hiOut', 'z.closed', 'z.streams.by'], ANY), (['r', 'o', 'e'], S('call:hdr', 'call:push', 'frame:HEADERS', 'frame:PP', 'frame:PRIO'))]},
     'C10': {'scenarios': scen('SetC SetS LifeS PushS', ['P_C10_OutboundWithinPeerLimit']),
-            'lens': [(['r'], S('call:oin', 'call:oout')), (['r', 'o', 'e'], S('call:hdr', 'frame:HEADERS'))]},
+            'lens': [(['r'], S('call:oin', 'call:oout')), (['r', 'o', 'e'], S('call:hdr', 'frame:HEADERS')), (['z.streams.st', 'z.streams', 'z.rs', 'z.ls'], ANY)]},
     'C11': {'scenarios': scen('SetC SetS', ['P_C11_PeerSettingsAckedOnce']),
             'lens': [(['r', 'o', 'e', 'z.ls', 'z.rs', 'q.mof', 'q.mif', 'z.hdrCap'], S('call:set', 'frame:SET')), (['z.ls', 'z.rs'], ANY)]},
     'C12': {'scenarios': scen('SetS SetC CloseS PushS', ['P_C12_SettingsValidation']),
             'lens': [(['r', 'o', 'e', 'q.lw', 'q.rw', 'z.streams.ow', 'z.streams.iw', 'z.ow'], S('call:set', 'frame:SET'))]},
     'C13': {'scenarios': scen('Pair1 HdrOutC HdrOutS PushS', ['P_C13_CleanSendsDecode']),
-            'lens': [(['o', 'r'], S('call:hdr', 'call:push')), (['r', 'e'], S('dlv'))]},
+            'lens': [(['o', 'r'], S('call:hdr', 'call:push')), (['r', 'e'], S('dlv')), (['z.hp'], ANY)]},
     'C14': {'scenarios': scen('HdrOutC HdrOutS Pair1', ['P_C14_EmittedBlocksConformant']),
             'lens': [(['r', 'o'], S('call:hdr', 'call:push'))]},
     'C15': {'scenarios': scen('HdrInS HdrInC', ['P_C15_DeliveredBlocksConformant']),
@@ -98,11 +98,11 @@ PROPS = {
     'C19': {'scenarios': scen('CloseS MiscC', ['P_C19_ClosedStaysQuiet']),
             'lens': [(['r', 'o', 'z.conn'], ANY)]},
     'C20': {'scenarios': scen('LifeC LifeS Pair1 PushC', ['P_C20_ResetRacesAreStreamErrors']),
-            'lens': [(['r', 'o', 'e', 'q.rw', 'z.iw'], S('recv', 'dlv'))]},
+            'lens': [(['r', 'o', 'e', 'q.rw', 'z.iw', 'z.closed', 'z.streams.by', 'z.hp'], S('recv', 'dlv'))]},
     'C21': {'scenarios': [dict(s, chunked=True) for s in scen('LifeS LifeC MiscC CloseS FrameS RawS RawC', [])],
-            'lens': [(['r', 'o', 'e'], S('recv', 'dlv'))]},
+            'lens': [(['r', 'o', 'e', 'z.pend', 'z.hb'], S('recv', 'dlv'))]},
     'C22': {'scenarios': scen('LifeC SetC MiscS Pair1 PushC PushS', ['P_C22_PushOnlyWhenAllowed']),
-            'lens': [(['r', 'o', 'e'], S('call:push', 'frame:PP')), (['r', 'e'], S('frame:HEADERS', 'frame:DATA'))]},
+            'lens': [(['r', 'o', 'e'] + STATE_FSM, S('call:push', 'frame:PP')), (['r', 'e'], S('frame:HEADERS', 'frame:DATA'))]},
     'C23': {'scenarios': scen('MiscC MiscS', ['P_C23_PriorityChangesNothing']),
             'lens': [(['r', 'o', 'e'], S('call:prio', 'frame:PRIO')), (['r', 'o', 'e'], S('call:hdr', 'frame:HEADERS')),
                      (['z.streams', 'z.closed', 'z.ow', 'z.iw'], S('call:prio', 'frame:PRIO'))]},
@@ -113,7 +113,7 @@ PROPS = {
     'C26': {'scenarios': scen('MiscC MiscS CloseS', ['P_C26_PingAnsweredOnce']),
             'lens': [(['r', 'o', 'e'], S('call:ping', 'frame:PING'))]},
     'C27': {'scenarios': scen('CloseS MiscS MiscC LifeS HdrInS PushC RawS', ['P_C27_ClosedMemoryBounded', 'P_C27_NoStateForNonOpeningFrames']),
-            'lens': [(['z.streams', 'z.closed'], ANY), (['r', 'o'], S('frame:HEADERS', 'frame:PP', 'frame:CONT'))]},
+            'lens': [(['z.streams', 'z.closed', 'z.pend', 'z.hb'], ANY), (['r', 'o'], S('frame:HEADERS', 'frame:PP', 'frame:CONT', 'frame:RAW'))]},
     'C28': {'scenarios': [dict(s, hashseeds=True) for s in scen('Pair1 SetS MiscC HdrInS', [])],
             'lens': [(ALL_PUBLIC, ANY)]},
     'C29': {'scenarios': scen('LifeS LifeC MiscC MiscS CloseS SetS FlowS', GENERIC),
@@ -143,7 +143,7 @@ TV = {
     'C05': tvs('s c', 'flow', n=(30, 900)),
     'C06': tvs('s c pair', 'life', n=(20, 500), max_closed=[None, 3]),
     'C07': tvs('s c', 'life headers', chaos=0.15),
-    'C08': tvs('s c', 'life misc', chaos=0.3),
+    'C08': tvs('s c', 'life misc push', chaos=0.3),
     'C09': tvs('s c', 'life push', chaos=0.15),
     'C10': tvs('s c', 'life push settings') + tvs('pair', 'push'),
     'C11': tvs('s c pair', 'settings', n=(20, 600)),
